@@ -1,7 +1,38 @@
 --------------------------- MODULE ChainBuildGen ---------------------------
 (* Case generator for C12 (builder programs). *)
 EXTENDS ChainBuild, Json, IOUtils, SequencesExt
-All == SetToSeq(Programs)
+CONSTANTS RandomPrograms
+\* Longer structured programs the exhaustive family is too short for: several Use calls on one group (so that its
+\* handler slice has spare capacity), groups created without middleware, then Use calls on several owners of what
+\* may be one shared backing array, then a route in every group; plus seeded pseudo-random programs of 8 ops.
+Rep(o, k) == [j \in 1 .. k |-> o]
+U(g) == Op("Use", g, 1)
+G(p) == Op("Group", p, 0)
+R(g) == Op("Register", g, 1)
+Structured == UNION {{
+    Rep(U(0), a) \o <<G(0), G(0), U(1), U(2), R(1), R(2), R(0)>>,
+    Rep(U(0), a) \o <<G(0), G(0), U(2), U(1), R(1), R(2)>>,
+    Rep(U(0), a) \o <<G(0), U(0), U(1), R(1), R(0)>>,
+    Rep(U(0), a) \o <<G(0), U(1), U(0), R(1), R(0)>>,
+    Rep(U(0), a) \o <<G(0), U(1), G(1), U(1), U(2), R(1), R(2)>>,
+    Rep(U(0), a) \o <<Op("NoRoute", 0, 1), G(0), U(1), U(0), R(1)>>,
+    Rep(U(0), a) \o <<G(0), U(1), R(1)>> \o <<U(0)>>,
+    <<Op("Group", 0, 1)>> \o Rep(U(1), a) \o <<G(1), G(1), U(2), U(3), R(2), R(3), R(1)>>
+  } : a \in 1 .. 6}
+
+Seed == IF "VERIF_SEED" \in DOMAIN IOEnv THEN atoi(IOEnv.VERIF_SEED) ELSE 1
+Lcg(x) == ((x % 65537) * 75 + 74) % 65537
+RECURSIVE RandProg(_, _, _, _)
+\* k ops left, x random state, ng groups so far, p prefix
+RandProg(k, x, ng, p) ==
+    IF k = 0 THEN p \o [g \in 1 .. ng |-> R(g - 1)]
+    ELSE LET y == Lcg(x) z == Lcg(y) c == y % 10 g == z % ng IN
+         IF c < 6 THEN RandProg(k - 1, z, ng, Append(p, U(g)))
+         ELSE IF c < 9 /\ ng < 4 THEN RandProg(k - 1, z, ng + 1, Append(p, Op("Group", g, z % 2)))
+         ELSE RandProg(k - 1, z, ng, Append(p, R(g)))
+Random == {RandProg(8, (Seed % 1000) * 131 + j, 1, << >>) : j \in 1 .. RandomPrograms}
+
+All == SetToSeq(Programs \cup Structured \cup Random)
 ASSUME ndJsonSerialize(IOEnv.VERIF_OUT, [i \in 1 .. Len(All) |-> [id |-> i, kind |-> "build", prog |-> All[i]]])
 GenInit == StartBuild(<< >>)
 GenNext == UNCHANGED bvars
